@@ -53,3 +53,31 @@ package keeper
 //@ loop 0 "for _, del := range delAddrs.TokenOrigins"
 //@ loop 0 invariant [reporter_credit_so_far] get0(reporter.SelectorTips, bytes(reporterAddr)) == get0(old(reporter.SelectorTips), bytes(reporterAddr)) + own_shares(reward, reporterAddr, queryId, height, $i) + (has_own_origin(reporterAddr, queryId, height, $i) ? commission_of(reward, reporterAddr) : 0)
 //@ loop 0 invariant [commission_paid_iff_own_origin_seen] commissionPaid <==> has_own_origin(reporterAddr, queryId, height, $i)
+
+// ---- entry points used by the dispute module: abstract (trusted) frames ----
+// These functions move stake between delegations, unbonding entries and the staking pools. Their bodies are not
+// verified here (C05 is not claimed); callers only rely on the frame below: they write reporter and staking state
+// and the two staking pool accounts, nothing else.
+
+//@ func (k Keeper).ReturnSlashedTokens(ctx, amt, hashId) (err)
+//@ trusted
+//@ modifies reporter.*, staking.*, bank.bal
+//@ ensures [only_pool_accounts_touched] forall a addr :: a != module("bonded_tokens_pool") && a != module("not_bonded_tokens_pool") ==> bank.bal[a] == old(bank.bal[a])
+
+//@ func (k Keeper).FeeRefund(ctx, hashId, amt) (err)
+//@ trusted
+//@ modifies reporter.*, staking.*, bank.bal
+//@ ensures [only_pool_accounts_touched] forall a addr :: a != module("bonded_tokens_pool") && a != module("not_bonded_tokens_pool") ==> bank.bal[a] == old(bank.bal[a])
+
+//@ func (k Keeper).AddAmountToStake(ctx, acc, amt) (err)
+//@ trusted
+//@ modifies reporter.*, staking.*, bank.bal
+//@ ensures [only_pool_accounts_touched] forall a addr :: a != module("bonded_tokens_pool") && a != module("not_bonded_tokens_pool") ==> bank.bal[a] == old(bank.bal[a])
+
+//@ func (k Keeper).FeefromReporterStake(ctx, reporterAddr, amt, hashId) (err)
+//@ trusted
+//@ modifies reporter.*, staking.*, bank.bal
+
+//@ func (k Keeper).EscrowReporterStake(ctx, reporterAddr, power, height, amt, queryId, hashId) (err)
+//@ trusted
+//@ modifies reporter.*, staking.*, bank.bal
